@@ -28,6 +28,7 @@ INT_TYPES = {
     'int32_t': (32, True), 'uint32_t': (32, False), 'int64_t': (64, True), 'uint64_t': (64, False),
     'size_t': (64, False), 'std::size_t': (64, False),
     '__int128': (128, True), 'unsigned __int128': (128, False),
+    'byte': (8, False),  # std::byte (enum class : unsigned char); norm_type strips std::
 }
 
 
@@ -97,6 +98,8 @@ class Unit:
     def __init__(self):
         self.vars = {}   # id -> VarDecl node
         self.funcs = []  # (node, parent_name)
+        self.rec_kind = {}  # id(node) -> kind of the innermost enclosing record declaration
+        self.records = {}  # name -> complete CXXRecordDecl node
 
     def load(self, tu_text, filt, extra_flags=()):
         d = '/tmp/cxx2v_%d' % os.getpid()
@@ -121,21 +124,34 @@ class Unit:
             o, i = dec.raw_decode(s, i)
             self.walk(o, None)
 
-    def walk(self, n, parent):
+    def walk(self, n, parent, rec=None):
         k = n.get('kind')
         if k == 'VarDecl' and 'id' in n:
             self.vars[n['id']] = n
         if k in ('FunctionDecl', 'CXXMethodDecl', 'CXXConstructorDecl'):
             self.funcs.append((n, parent))
+            self.rec_kind[id(n)] = rec
+        if k == 'CXXRecordDecl' and n.get('completeDefinition') and 'name' in n:
+            self.records[n['name']] = n
         name = n.get('name', parent) if k in ('CXXRecordDecl', 'ClassTemplateDecl', 'ClassTemplateSpecializationDecl', 'NamespaceDecl') else parent
+        if k == 'ClassTemplateDecl':
+            rec = 'pattern'          # the templated CXXRecordDecl below holds dependent bodies
+        elif k == 'ClassTemplateSpecializationDecl':
+            rec = 'specialization'
+        elif k == 'CXXRecordDecl' and rec is None:
+            rec = 'record'
         for c in n.get('inner', []):
             if isinstance(c, dict):
-                self.walk(c, name)
+                self.walk(c, name, rec)
 
-    def find(self, name, sig_sub=None, parent=None):
+    def find(self, name, sig_sub=None, parent=None, rec=None):
+        """rec: None | 'record' | 'pattern' | 'specialization' -- restricts the kind of
+        the enclosing record (a class template's dependent pattern vs an instantiation)."""
         out = []
         for n, p in self.funcs:
             if n.get('name') != name:
+                continue
+            if rec is not None and self.rec_kind.get(id(n)) != rec:
                 continue
             if sig_sub is not None and sig_sub not in n.get('type', {}).get('qualType', ''):
                 continue
@@ -152,6 +168,47 @@ class Unit:
         if len(out) != 1:
             raise Unsupported('expected exactly one definition of %s [%s] in %s, found %d' % (name, sig_sub, parent, len(out)))
         return out[0]
+
+
+def record_layout(tu_text, record, extra_flags=()):
+    """Byte offsets of the (nested) members of [record] (its exact name as printed by
+    clang's -fdump-record-layouts, e.g. 'union ns::u').  Returns (members, sizeof) with
+    members: path tuple -> (offset, declared type text).  The TU must make the record
+    complete (e.g. through a sizeof)."""
+    d = '/tmp/cxx2v_%d' % os.getpid()
+    os.makedirs(d, exist_ok=True)
+    src = os.path.join(d, 'layout.cpp')
+    open(src, 'w').write(tu_text)
+    cmd = ['clang++'] + CLANG_FLAGS + list(extra_flags) + ['-Xclang', '-fdump-record-layouts', src]
+    p = subprocess.run(cmd, capture_output=True, text=True, timeout=300)
+    os.remove(src)
+    if p.returncode != 0:
+        raise Unsupported('clang failed on record layout: %s' % p.stderr[-2000:])
+    found = []
+    for blk in p.stdout.split('*** Dumping AST Record Layout')[1:]:
+        lines = [l for l in blk.split('\n') if '|' in l]
+        if not lines or lines[0].split('|', 1)[1].strip() != record:
+            continue
+        members, stack, size = {}, [], None
+        for l in lines[1:]:
+            off, txt = l.split('|', 1)
+            if not off.strip():
+                m = re.search(r'sizeof=(\d+)', txt)
+                if m:
+                    size = int(m.group(1))
+                continue
+            if ':' in off:
+                raise Unsupported('bit-field in record %s' % record)
+            depth = (len(txt) - len(txt.lstrip(' ')) - 1) // 2
+            ty, _, name = txt.strip().rpartition(' ')
+            if depth < 1 or not ty or '(' in name:
+                raise Unsupported('cannot parse layout line %r' % l)
+            stack = stack[:depth - 1] + [name]
+            members[tuple(stack)] = (int(off), ty)
+        found.append((members, size))
+    if len(found) != 1 or found[0][1] is None:
+        raise Unsupported('expected exactly one layout of %s, found %d' % (record, len(found)))
+    return found[0]
 
 
 def strip_locs(n):
@@ -176,6 +233,18 @@ class Fn:
         self.extra_inputs = list(inputs)  # names of uninitialised locals that are inputs
         self.this_fields = dict(this_fields)  # member name -> coq param name (fields read through this)
         self.used_fields = []
+        # -- optional configuration (set by the driver after construction) --
+        self.obj_params = {}      # parameter of class type -> {member name -> coq param name}
+        self.drop_params = ()     # opaque parameters (only allowed inside input_exprs calls)
+        self.union_views = {}     # member path from the object, e.g. ('f','len') ->
+        #                           (word member, byte offset, byte size[, element count]):
+        #                           little-endian byte view of a word member of the same union
+        self.fn_calls = {}        # callee name -> (coq name, add <coq>_defined?, takes the receiver's fields?)
+        self.input_exprs = ()     # calls on opaque objects that become fresh inputs
+        self.abort_calls = ('__assert_fail',)
+        self.bound_fields = set()  # fields of *this re-bound by a store (mode 'field:<f>')
+        self.opaque_ver = {}
+        self.in_branch = 0
 
     # ---------- expressions: return (term, defined or None) ----------
     def E(self, n):
@@ -220,16 +289,22 @@ class Fn:
         if k == 'MemberExpr':
             # this->field (implicit) read
             if ks and ks[0]['kind'] == 'CXXThisExpr' and n.get('name') in self.this_fields:
-                nm = self.this_fields[n['name']]
-                if nm not in self.used_fields:
-                    self.used_fields.append(nm)
-                return (nm, None)
+                return (self.field_of('this', n['name']), None)
+            base, path = self.member_path(n)
+            if base is not None and len(path) == 1 and self.has_field(base, path[0]):
+                return (self.field_of(base, path[0]), None)
+            if base is not None and path in self.union_views:
+                v = self.union_views[path]
+                if len(v) != 3:
+                    raise Unsupported('array member %s read without subscript' % '.'.join(path))
+                word, off, size = v
+                return (self.byte_view(self.field_of(base, word), str(8 * off), size), None)
             raise Unsupported('member expression %s' % n.get('name'))
         if k in ('ImplicitCastExpr', 'CXXStaticCastExpr', 'CStyleCastExpr', 'CXXFunctionalCastExpr'):
             ck = n.get('castKind')
             e, d = self.E(ks[0])
             st = ctype(ks[0])
-            if ck in ('LValueToRValue', 'NoOp', 'FunctionToPointerDecay', 'ConstructorConversion'):
+            if ck in ('LValueToRValue', 'NoOp', 'FunctionToPointerDecay', 'ConstructorConversion', 'UserDefinedConversion'):
                 return (e, d)
             if ck == 'IntegralCast':
                 if st[0] == 'b' and t[0] == 'i':
@@ -318,6 +393,53 @@ class Fn:
             return self.call(n, t, ks)
         raise Unsupported('expression kind %s' % k)
 
+    # ---------- objects: *this and parameters of class type ----------
+    def strip_casts(self, c):
+        while c['kind'] in ('ImplicitCastExpr', 'ParenExpr') and c.get('castKind', 'NoOp') in ('NoOp', 'LValueToRValue'):
+            c = kids(c)[0]
+        return c
+
+    def member_path(self, n):
+        """(base, path): base = 'this' | name of a parameter of class type | None;
+        path = member names from the object outwards-in, e.g. this->f.len -> ('f','len')."""
+        path = []
+        c = n
+        while c['kind'] == 'MemberExpr':
+            path.insert(0, c.get('name'))
+            c = self.strip_casts(kids(c)[0])
+        if c['kind'] == 'CXXThisExpr':
+            return 'this', tuple(path)
+        if c['kind'] == 'DeclRefExpr' and c['referencedDecl'].get('name') in self.obj_params \
+                and c['referencedDecl'].get('kind') == 'ParmVarDecl':
+            return c['referencedDecl']['name'], tuple(path)
+        return None, tuple(path)
+
+    def has_field(self, base, member):
+        if base == 'this':
+            return member in self.this_fields
+        return member in self.obj_params.get(base, {})
+
+    def field_of(self, base, member):
+        if base == 'this':
+            if member not in self.this_fields:
+                raise Unsupported('unknown field %s of *this' % member)
+            nm = self.this_fields[member]
+            if nm not in self.used_fields and nm not in self.bound_fields:
+                self.used_fields.append(nm)
+            return nm
+        if member not in self.obj_params.get(base, {}):
+            raise Unsupported('unknown field %s of %s' % (member, base))
+        return self.obj_params[base][member]
+
+    def receiver_fields(self, base):
+        if base == 'this':
+            return [self.field_of('this', m) for m in self.this_fields]
+        return [self.field_of(base, m) for m in self.obj_params[base]]
+
+    def byte_view(self, word, bitpos, size):
+        """[size] bytes at bit position [bitpos] of the little-endian word [word]."""
+        return '((Z.shiftr %s %s) mod %d)' % (word, bitpos, 1 << (8 * size))
+
     def arith(self, op, t, a, b, d):
         w, s = t[1], t[2]
         la, lb = lit(a), lit(b)
@@ -373,12 +495,79 @@ class Fn:
     def call(self, n, t, ks):
         name, cal = self.callee_name(n, ks)
         args = ks[1:]
+        if name == '__builtin_expect' and len(args) == 2:
+            a, da = self.E(args[0])
+            b, db = self.E(args[1])
+            return (a, conj(da, db))
+        if name in getattr(self, 'known_methods', {}) and cal['kind'] == 'MemberExpr':
+            # method of a value object translated separately: [coq args... receiver]
+            coq, nargs = self.known_methods[name]
+            if cal.get('isArrow') or len(args) != nargs:
+                raise Unsupported('method call %s with %d args' % (name, len(args)))
+            parts = [self.arg(name, i, a) for i, a in enumerate(args)] + [self.E(kids(cal)[0])]
+            return self.app(coq, parts)
         if name in getattr(self, 'identity_methods', ('get',)) and not args and cal['kind'] == 'MemberExpr':
             base = kids(cal)[0]
             while base['kind'] in ('ImplicitCastExpr', 'ParenExpr'):
                 base = kids(base)[0]
             if base['kind'] == 'DeclRefExpr':
                 return self.E(base)
+            if base['kind'] in ('MemberExpr', 'CXXOperatorCallExpr'):
+                return self.E(base)  # wrapper around a field: this->f.load(), operator T()
+        if name == 'operator[]' and n['kind'] == 'CXXOperatorCallExpr' and len(args) == 2:
+            # subscript of an array member that is viewed through a word of the same union
+            arr = self.strip_casts(args[0])
+            base, path = self.member_path(arr) if arr['kind'] == 'MemberExpr' else (None, ())
+            v = self.union_views.get(path) if base is not None else None
+            if v is None or len(v) != 4:
+                raise Unsupported('operator[] on something that is not a viewed array member')
+            word, off, size, count = v
+            ti = ctype(args[1])
+            if ti[0] != 'i':
+                raise Unsupported('subscript type')
+            i, di = self.E(args[1])
+            inb = '((0 <=? %s) && (%s <? %d))' % (i, i, count)
+            return (self.byte_view(self.field_of(base, word), '(8 * (%d + %d * %s))' % (off, size, i), size), conj(di, inb))
+        if name in self.fn_calls:
+            coq, with_def, takes_fields = self.fn_calls[name]
+            parts = [self.E(a) for a in args]
+            terms = [p[0] for p in parts]
+            if takes_fields:
+                if cal['kind'] != 'MemberExpr':
+                    raise Unsupported('call %s without an object' % name)
+                rc = self.strip_casts(kids(cal)[0])
+                if rc['kind'] == 'CXXThisExpr':
+                    terms += self.receiver_fields('this')
+                elif rc['kind'] == 'DeclRefExpr' and rc['referencedDecl'].get('kind') == 'ParmVarDecl' \
+                        and rc['referencedDecl'].get('name') in self.obj_params:
+                    terms += self.receiver_fields(rc['referencedDecl']['name'])
+                else:
+                    raise Unsupported('receiver of %s' % name)
+            d = conj(*[p[1] for p in parts])
+            if with_def:
+                d = conj(d, '(%s_defined %s)' % (coq, ' '.join(terms)) if terms else '%s_defined' % coq)
+            return ('(%s %s)' % (coq, ' '.join(terms)) if terms else coq, d)
+        if name in self.input_exprs:
+            # a call on opaque objects: its value is a fresh input of the function
+            refs = []
+
+            def collect(x):
+                if isinstance(x, dict):
+                    if x.get('kind') == 'DeclRefExpr' and x['referencedDecl'].get('kind') in ('ParmVarDecl', 'VarDecl'):
+                        refs.append(x['referencedDecl'].get('name'))
+                    for c in x.get('inner', []):
+                        collect(c)
+            for a in ([kids(cal)[0]] if cal['kind'] == 'MemberExpr' else []) + list(args):
+                collect(a)
+            if not refs or any(r not in self.drop_params for r in refs):
+                raise Unsupported('input call %s on non-opaque arguments %s' % (name, refs))
+            if t[0] != 'i':
+                raise Unsupported('input call %s of non-integer type' % name)
+            nm = '_'.join([name] + ['%s_v%d' % (r, self.opaque_ver[r]) if self.opaque_ver.get(r) else r for r in refs])
+            nm = re.sub(r'[^A-Za-z0-9_]', '_', nm)
+            if nm not in [p[0] for p in self.params]:
+                self.params.append((nm, t))
+            return (nm, None)
         if name == 'max' and not args and t[0] == 'i':
             return (str(rng(t)[1]), None)
         if name == 'min' and not args and t[0] == 'i':
@@ -413,9 +602,27 @@ class Fn:
             coq, nargs = self.known_calls[name]
             if len(args) != nargs:
                 raise Unsupported('call %s with %d args' % (name, len(args)))
-            parts = [self.E(a) for a in args]
-            return ('(%s %s)' % (coq, ' '.join(p[0] for p in parts)), conj(*[p[1] for p in parts]))
+            parts = [self.arg(name, i, a) for i, a in enumerate(args)]
+            return self.app(coq, parts)
         raise Unsupported('call to %s' % name)
+
+    def arg(self, callee, i, a):
+        if a['kind'] == 'CXXDefaultArgExpr':
+            # clang 14 does not dump the default; the driver supplies it from the callee's ParmVarDecl
+            da = getattr(self, 'default_args', {})
+            if (callee, i) not in da:
+                raise Unsupported('default argument %d of %s' % (i, callee))
+            return (da[(callee, i)], None)
+        return self.E(a)
+
+    def app(self, coq, parts):
+        term = '(%s %s)' % (coq, ' '.join(p[0] for p in parts)) if parts else coq
+        d = conj(*[p[1] for p in parts])
+        if getattr(self, 'call_defined', False):
+            # the callee's own side conditions are part of the caller's
+            dc = '(%s_defined %s)' % (coq, ' '.join(p[0] for p in parts)) if parts else '%s_defined' % coq
+            d = conj(d, dc)
+        return (term, d)
 
     # ---------- statements ----------
     def flat(self, s):
@@ -460,8 +667,15 @@ class Fn:
                 if len(tail) == 1:
                     return (tail[0], None)
                 return ('(' + ', '.join(tail) + ')', None)
+            if self.mode.startswith('field:') and not self.in_branch:
+                nm = self.this_fields.get(self.mode.split(':', 1)[1])
+                if nm is None or nm not in self.bound_fields:
+                    raise Unsupported('field %s never stored in %s' % (self.mode, self.name))
+                return (nm, None)  # the function's effect: final value of the field
             raise Unsupported('control reaches end of function %s' % self.name)
         s, rest = stmts[0], stmts[1:]
+        while s['kind'] == 'ExprWithCleanups':
+            s = kids(s)[0]  # full-expression with temporaries
         k = s['kind']
         if k == 'ParenExpr' or (k in ('CXXStaticCastExpr', 'CStyleCastExpr') and s.get('castKind') == 'ToVoid'):
             inner = s
@@ -469,7 +683,44 @@ class Fn:
                 inner = kids(inner)[0]
             if inner.get('castKind') == 'ToVoid':
                 return self.block(rest, tail)  # compiled-out assertion
+            if inner['kind'] == 'ConditionalOperator' and len(kids(inner)) == 3:
+                # live assertion: cond ? (void)0 : abort(...)  -- cond joins the side conditions
+                c0, ok, bad = kids(inner)
+                okc = ok
+                while okc['kind'] == 'ParenExpr':
+                    okc = kids(okc)[0]
+                if okc.get('castKind') == 'ToVoid' and bad['kind'] == 'CallExpr' \
+                        and self.callee_name(bad, kids(bad))[0] in self.abort_calls:
+                    while c0['kind'] in ('ParenExpr',) or (c0['kind'] == 'CXXStaticCastExpr' and c0.get('castKind') == 'NoOp'):
+                        c0 = kids(c0)[0]
+                    c, dc = self.E(c0)
+                    r, dr = self.block(rest, tail)
+                    return (r, conj(dc, c, dr))
             raise Unsupported('expression statement')
+        if k == 'CXXOperatorCallExpr' and self.callee_name(s, kids(s))[0] == 'operator=' and len(kids(s)) == 3:
+            lhs = self.strip_casts(kids(s)[1])
+            if lhs['kind'] == 'DeclRefExpr' and lhs['referencedDecl'].get('name') in self.drop_params:
+                # re-assignment of an opaque object: later input_exprs calls see a new version
+                if self.in_branch:
+                    raise Unsupported('opaque assignment under a branch')
+                nm0 = lhs['referencedDecl']['name']
+                self.check_opaque(kids(s)[2])
+                self.opaque_ver[nm0] = self.opaque_ver.get(nm0, 0) + 1
+                return self.block(rest, tail)
+            if lhs['kind'] == 'MemberExpr':
+                base, path = self.member_path(lhs)
+                if base == 'this' and len(path) == 1 and self.mode == 'field:' + path[0] and path[0] in self.this_fields:
+                    if self.in_branch:
+                        raise Unsupported('field store under a branch')
+                    e, d = self.E(kids(s)[2])
+                    nm = self.this_fields[path[0]]
+                    self.bound_fields.add(nm)
+                    r, dr = self.block(rest, tail)
+                    dd = None
+                    if d is not None or dr is not None:
+                        dd = conj(d, None if dr is None else '(let %s := %s in %s)' % (nm, e, dr))
+                    return ('(let %s := %s in\n  %s)' % (nm, e, r), dd)
+            raise Unsupported('operator= statement')
         if k == 'DeclStmt':
             term = None
             decls = [c for c in kids(s) if c['kind'] == 'VarDecl']
@@ -550,39 +801,61 @@ class Fn:
                 dd = '(let %s := %s in %s)' % (nm, e, conj(d, dr))
             return ('(let %s := %s in\n  %s)' % (nm, e, r), dd)
         if k == 'IfStmt':
-            ks = kids(s)
-            c, dc = self.E(ks[0])
-            th = self.flat(ks[1])
-            el = self.flat(ks[2]) if len(ks) > 2 else []
-            if self.terminates(th):
-                a, da = self.block(th, None)
-                b, db = self.block(el + rest, tail)
-                d = None
-                if da is not None or db is not None:
-                    d = '(if %s then %s else %s)' % (c, da or 'true', db or 'true')
-                return ('(if %s\n  then %s\n  else %s)' % (c, a, b), conj(dc, d))
-            if self.terminates(el):
-                a, da = self.block(th + rest, tail)
-                b, db = self.block(el, None)
-                d = None
-                if da is not None or db is not None:
-                    d = '(if %s then %s else %s)' % (c, da or 'true', db or 'true')
-                return ('(if %s\n  then %s\n  else %s)' % (c, a, b), conj(dc, d))
-            vs = tuple(self.assigned(th) + [x for x in self.assigned(el) if x not in self.assigned(th)])
-            if not vs:
-                raise Unsupported('if without effect')
-            a, da = self.block(th, vs)
-            b, db = self.block(el, vs)
-            pat = vs[0] if len(vs) == 1 else "'(" + ', '.join(vs) + ')'
-            r, dr = self.block(rest, tail)
+            self.in_branch += 1
+            try:
+                return self.if_stmt(s, rest, tail)
+            finally:
+                self.in_branch -= 1
+        return self.other_stmt(s, rest, tail)
+
+    def check_opaque(self, e):
+        """every variable mentioned in e must be opaque (or e is skipped wrongly)"""
+        if isinstance(e, dict):
+            if e.get('kind') == 'DeclRefExpr' and e['referencedDecl'].get('kind') in ('ParmVarDecl', 'VarDecl') \
+                    and e['referencedDecl'].get('name') not in self.drop_params:
+                raise Unsupported('opaque assignment mentions %s' % e['referencedDecl'].get('name'))
+            if e.get('kind') in ('CXXThisExpr',):
+                raise Unsupported('opaque assignment mentions this')
+            for c in e.get('inner', []):
+                self.check_opaque(c)
+
+    def if_stmt(self, s, rest, tail):
+        ks = kids(s)
+        c, dc = self.E(ks[0])
+        th = self.flat(ks[1])
+        el = self.flat(ks[2]) if len(ks) > 2 else []
+        if self.terminates(th):
+            a, da = self.block(th, None)
+            b, db = self.block(el + rest, tail)
             d = None
             if da is not None or db is not None:
                 d = '(if %s then %s else %s)' % (c, da or 'true', db or 'true')
-            bind = '(if %s then %s else %s)' % (c, a, b)
-            dd = conj(dc, d)
-            if dr is not None:
-                dd = conj(dd, '(let %s := %s in %s)' % (pat, bind, dr))
-            return ('(let %s := %s in\n  %s)' % (pat, bind, r), dd)
+            return ('(if %s\n  then %s\n  else %s)' % (c, a, b), conj(dc, d))
+        if self.terminates(el):
+            a, da = self.block(th + rest, tail)
+            b, db = self.block(el, None)
+            d = None
+            if da is not None or db is not None:
+                d = '(if %s then %s else %s)' % (c, da or 'true', db or 'true')
+            return ('(if %s\n  then %s\n  else %s)' % (c, a, b), conj(dc, d))
+        vs = tuple(self.assigned(th) + [x for x in self.assigned(el) if x not in self.assigned(th)])
+        if not vs:
+            raise Unsupported('if without effect')
+        a, da = self.block(th, vs)
+        b, db = self.block(el, vs)
+        pat = vs[0] if len(vs) == 1 else "'(" + ', '.join(vs) + ')'
+        r, dr = self.block(rest, tail)
+        d = None
+        if da is not None or db is not None:
+            d = '(if %s then %s else %s)' % (c, da or 'true', db or 'true')
+        bind = '(if %s then %s else %s)' % (c, a, b)
+        dd = conj(dc, d)
+        if dr is not None:
+            dd = conj(dd, '(let %s := %s in %s)' % (pat, bind, dr))
+        return ('(let %s := %s in\n  %s)' % (pat, bind, r), dd)
+
+    def other_stmt(self, s, rest, tail):
+        k = s['kind']
         if k in ('CXXMemberCallExpr', 'CallExpr'):
             name, _ = self.callee_name(s, kids(s))
             if self.mode == 'callarg:' + str(name):
@@ -606,7 +879,9 @@ class Fn:
         used = set(self.env.values()) | {p[0] for p in self.params}
         nm = base
         i = 0
-        while nm in used or nm in ('if', 'then', 'else', 'let', 'in', 'fun', 'end', 'at', 'as', 'is_prefix'):
+        while nm in used or nm in ('if', 'then', 'else', 'let', 'in', 'fun', 'end', 'at', 'as', 'is_prefix',
+                                  'by', 'for', 'with', 'match', 'return', 'where', 'forall', 'exists', 'using', 'fix', 'cofix',
+                                  'Type', 'Prop', 'Set', 'SProp'):
             i += 1
             nm = '%s_%d' % (base, i)
         return nm
@@ -614,9 +889,16 @@ class Fn:
     def translate(self):
         n = self.node
         body = None
+        inits = []
         for c in kids(n):
             if c['kind'] == 'ParmVarDecl':
                 q = c['type'].get('qualType', '')
+                if c.get('name') in self.drop_params:
+                    continue  # opaque object: only reachable through input_exprs
+                if c.get('name') in self.obj_params:
+                    for m, nm in self.obj_params[c['name']].items():
+                        self.params.append((nm, ('i', 64, False)))
+                    continue  # object of class type: one parameter per listed field
                 if q.endswith('&') and 'const' not in q:
                     continue  # output reference parameter
                 nm = self.fresh(c.get('name', 'arg'))
@@ -624,8 +906,19 @@ class Fn:
                 self.params.append((nm, ctype(c)))
             elif c['kind'] == 'CompoundStmt':
                 body = c
+            elif c['kind'] == 'CXXCtorInitializer':
+                inits.append(c)
         if body is None:
             raise Unsupported('no body for %s' % self.name)
+        pre = None
+        if inits:
+            # constructor: the member initialiser of the result field is the first store
+            want = self.mode.split(':', 1)[1] if self.mode.startswith('field:') else None
+            if len(inits) != 1 or inits[0].get('anyInit', {}).get('name') != want or want not in self.this_fields:
+                raise Unsupported('constructor initialisers of %s' % self.name)
+            e0, d0 = self.E(kids(inits[0])[0])
+            self.bound_fields.add(self.this_fields[want])
+            pre = (self.this_fields[want], e0, d0)
         self.result_type = None
         rt = None
         if self.mode == 'return':
@@ -634,9 +927,13 @@ class Fn:
             if rt[0] == 'o':
                 rt = None
         term, d = self.block(self.flat(body))
+        if pre is not None:
+            nm, e0, d0 = pre
+            term = '(let %s := %s in\n  %s)' % (nm, e0, term)
+            d = conj(d0, None if d is None else '(let %s := %s in %s)' % (nm, e0, d))
         rt = self.result_type or rt
-        params = [p[0] for p in self.params] + self.used_fields
-        ps = ' '.join('(%s : Z)' % p for p in params)
+        params = [(p[0], 'bool' if p[1] == ('b',) else 'Z') for p in self.params] + [(p, 'Z') for p in self.used_fields]
+        ps = ' '.join('(%s : %s)' % p for p in params)
         res = 'bool' if (rt and rt[0] == 'b') else 'Z'
         out = 'Definition %s %s : %s :=\n  %s.\n\n' % (self.name, ps, res, term)
         out += 'Definition %s_defined %s : bool :=\n  %s.\n\n' % (self.name, ps, d or 'true')
